@@ -10,6 +10,7 @@ import (
 	"net"
 	"net/url"
 	"strings"
+	"sync"
 	"time"
 
 	"github.com/saucelabs/forwarder"
@@ -214,13 +215,23 @@ func setup(run *lib.Run, r *lib.RNG, idx int) *conf {
 		},
 		Transport: func(tc *forwarder.HTTPTransportConfig) {
 			tc.CACertFiles = []string{lib.DataURI(c.ca.CertPEM)}
-			tc.RedirectFunc = func(network, address string) (string, string) {
-				if address == upAddr {
-					return network, address
-				}
-				h, port, _ := net.SplitHostPort(address)
-				return network, route(h, port)
+			// the routes are --connect-to rules (first match wins): the upstream proxy's own
+			// address passes through unchanged, everything else is mapped to a local peer
+			var pairs []forwarder.HostPortPair
+			if upAddr != "" {
+				h, port, _ := net.SplitHostPort(upAddr)
+				pairs = append(pairs, forwarder.HostPortPair{Src: forwarder.HostPort{Host: h, Port: port}})
 			}
+			dst := func(addr string) forwarder.HostPort {
+				h, port, _ := net.SplitHostPort(addr)
+				return forwarder.HostPort{Host: h, Port: port}
+			}
+			pairs = append(pairs,
+				forwarder.HostPortPair{Src: forwarder.HostPort{Host: "tunnel.test"}, Dst: dst(c.tunnel.Addr)},
+				forwarder.HostPortPair{Src: forwarder.HostPort{Port: "443"}, Dst: dst(c.torigin.Addr)},
+				forwarder.HostPortPair{Src: forwarder.HostPort{Port: "8443"}, Dst: dst(c.torigin.Addr)},
+				forwarder.HostPortPair{Dst: dst(c.origin.Addr)})
+			tc.RedirectFunc = forwarder.DialRedirectFromHostPortPairs(pairs)
 		},
 	})
 	if err != nil {
@@ -300,6 +311,9 @@ func main() {
 		r := root.Sub(uint64(ci))
 		c := setup(run, r, ci)
 		runConf(run, r, c, base, nReq)
+		if run.Want(base + 9000) {
+			concurrentPlain(run, r, c, base+9000)
+		}
 		c.close()
 	}
 	run.Floor("origin_requests_checked", int64(nConf*nReq/3))
@@ -307,8 +321,83 @@ func main() {
 	run.Floor("client_authorization_preserved", 30)
 	run.Floor("upstream_requests_checked", 100)
 	run.Floor("tunnels_scanned", 20)
+	run.Floor("concurrent_requests_checked", int64(nConf*40))
 	wiring.Run(run, "C06")
 	run.Finish()
+}
+
+// concurrentPlain: eight clients at once send plain requests for different sites (ports implied
+// or spelled out) through the same proxy instance; each request is then looked up at its next hop
+// and judged like the sequential ones. The credential table, the connect-to rules and the header
+// modifiers are shared by all connections of an instance.
+func concurrentPlain(run *lib.Run, r *lib.RNG, c *conf, idx int) {
+	run.Case(idx, c.sig()+"|concurrent-plain", nil)
+	type sent struct {
+		id, host, port, own string
+		ok                  bool
+	}
+	const clients, each = 8, 10
+	all := make([][]sent, clients)
+	for k := range all {
+		for j := 0; j < each; j++ {
+			q := sent{id: fmt.Sprintf("k%dc%dq%d", c.idx, k, j), host: lib.Pick(r, sites), port: lib.Pick(r, []string{"", "", "80", "8080"})}
+			if r.Chance(1, 4) {
+				q.own = "Bearer own-" + r.Str(10, "abcdef0123456789")
+			}
+			all[k] = append(all[k], q)
+		}
+	}
+	var wg sync.WaitGroup
+	for k := range all {
+		wg.Add(1)
+		go func(qs []sent) {
+			defer wg.Done()
+			for i := range qs {
+				q := &qs[i]
+				st, err := lib.Dial(c.p.Addr)
+				if err != nil {
+					return
+				}
+				hp := wireHost(q.host)
+				if q.port != "" {
+					hp += ":" + q.port
+				}
+				fs := []lib.Field{{"Host", hp}, {"X-Vid", q.id}, {"Proxy-Authorization", c.client.basic()}}
+				if q.own != "" {
+					fs = append(fs, lib.Field{"Authorization", q.own})
+				}
+				st.C.Write(lib.EncodeRequest("GET", "http://"+hp+"/r/"+q.id, "HTTP/1.1", fs, nil, false, nil, "", nil))
+				res, pst, _ := st.ReadResponse("GET", 15*time.Second)
+				q.ok = pst == lib.POK && res.Status == 200
+				st.Close()
+			}
+		}(all[k])
+	}
+	wg.Wait()
+	hop := c.origin
+	if c.up != nil {
+		hop = c.up
+	}
+	byID := map[string]*lib.Msg{}
+	for _, q := range hop.Requests() {
+		byID[q.Get1("X-Vid")] = q
+	}
+	for _, qs := range all {
+		for _, q := range qs {
+			wit := map[string]any{"config": c.sig(), "table": fmtTable(c.table), "kind": "http (8 concurrent clients)", "host": q.host, "port": q.port, "upstream_port": c.upPort}
+			rec := byID[q.id]
+			if !q.ok || rec == nil {
+				run.Violation("concurrent-request-failed", fmt.Sprintf("plain request %s failed or did not reach its next hop while 7 other clients were active (answered=%v, recorded=%v)", q.id, q.ok, rec != nil), idx, wit)
+				continue
+			}
+			eff := q.port
+			if eff == "" {
+				eff = "80"
+			}
+			c.checkOriginSide(run, idx, rec, refMatch(c.table, q.host, eff), q.own, wit, c.up != nil)
+			run.Count("concurrent_requests_checked", 1)
+		}
+	}
 }
 
 func runConf(run *lib.Run, r *lib.RNG, c *conf, base, nReq int) {
